@@ -170,11 +170,42 @@ class FakeStorage:
     return set()
 
   def GetKeypairData(self):
+    stubs.USED.add('Storage.GetKeypairData: a table with one arbitrary 64-bit '
+                   'key (seed metadata (7,))')
+    e = pysym.eng()
+    key = ('storage', 'keypair')
+    if key not in e.memo:
+      t = e.fresh('keypair_msb')
+      e.assume(z3.And(t >= 2**63, t < 2**64))
+      e.memo[key] = SInt(t)
 
     class D:
-      table = {}
+      table = {e.memo[key]: (7,)}
 
     return D()
+
+
+class FakeKeypairGenerator:
+  """keypair_generator stand-in: generate_key(bits) is an arbitrary pair of
+  integers > 1, the same for the same seed and size (the generator is a
+  deterministic function of both; its prime search is C06)."""
+
+  class Generator:
+
+    def __init__(self, seed):
+      self.seed = bytes(seed)
+
+    def generate_key(self, bits):
+      stubs.USED.add('keypair_generator.Generator(seed).generate_key(bits): '
+                     'arbitrary (p, q) > 1, a function of (seed, bits)')
+      e = pysym.eng()
+      key = ('keypair_gen', self.seed, T(bits).get_id() if pysym.is_sym(bits)
+             else bits)
+      if key not in e.memo:
+        pp, qq = e.fresh('kpg_p'), e.fresh('kpg_q')
+        e.assume(z3.And(pp > 1, qq > 1))
+        e.memo[key] = (SInt(pp), SInt(qq), bits)
+      return e.memo[key][0], e.memo[key][1]
 
 
 class Attach:
@@ -202,6 +233,7 @@ def variants(rsc):
       'CheckLowHammingWeight': [()],
       'CheckUnseededRand': [('storage',)],
       'CheckSmallUpperDifferences': [()],
+      'CheckKeypairDenylist': [('storage',)],
   }
 
 
@@ -241,7 +273,8 @@ def patches(rsc, rsa_util, scf, util, chk):
       (rsa_util, kst),
       (scf, sst),
       (util, dict(Bytes2Int=lambda b: b)),
-      (rsc, dict(gmpy=_GMPY, logging=common.QUIET)),
+      (rsc, dict(gmpy=_GMPY, logging=common.QUIET,
+                 keypair_generator=FakeKeypairGenerator)),
   ]
   return ps
 
@@ -303,6 +336,44 @@ def witness_pool():
   return pool
 
 
+def keypair_pool():
+  """Genuine keys of the vulnerable generator (real keypair_generator, small
+  sizes) with neighbours that share their 64 leading bits, and a Storage
+  whose table covers their seeds."""
+  import gmpy2  # pylint: disable=g-import-not-at-top
+  from paranoid_crypto.lib import keypair_generator  # pylint: disable=g-import-not-at-top
+  table = {}
+  pool = []
+  for b0, bits in ((1, 256), (2, 384)):
+    seed = bytearray([b0] + [0] * 31)
+    p_, q_ = keypair_generator.Generator(seed).generate_key(bits)
+    n = p_ * q_
+    msb = n >> (n.bit_length() - 64)
+    table[msb] = (b0,)
+    pool.append(('keypair%d' % b0, n))
+    for nm, n2 in (('plus2', n + 2), ('sibling', p_ * int(
+        gmpy2.next_prime(q_))), ('nextprime', int(gmpy2.next_prime(n)))):
+      if n2.bit_length() == n.bit_length() and n2 >> (
+          n2.bit_length() - 64) == msb:
+        pool.append(('keypair%d_%s' % (b0, nm), n2))
+    pool.append(('keypair%d_again' % b0, n))
+  pool.append(('unrelated', int(gmpy2.next_prime(2**127)) * int(
+      gmpy2.next_prime(2**128))))
+
+  class Data:
+    pass
+
+  data = Data()
+  data.table = table
+
+  class KpStorage:
+
+    def GetKeypairData(self):
+      return data
+
+  return pool, KpStorage()
+
+
 def concrete_oracle(check_name, ctor_args_list=None, max_pairs=200):
   """Runs the real check with real protobufs on ordered pairs of witness
   moduli; returns a list of problem descriptions (empty = consistent)."""
@@ -315,6 +386,9 @@ def concrete_oracle(check_name, ctor_args_list=None, max_pairs=200):
   problems = []
   var = ctor_args_list if ctor_args_list is not None else variants(rsc).get(
       check_name, [()])
+  if check_name == 'CheckKeypairDenylist':
+    pool, kp_storage = keypair_pool()
+    var = [(kp_storage,)]
   for args in var:
     if args == ('storage',):
       args = ()
@@ -406,20 +480,28 @@ def rsa_single_relational(rec, seed, check, variant, aspects, prop):
              'object, fresh fake messages); moduli n1 in [2^159, 2^161), n2 '
              'in [2^63, 2^65) symbolic, exponents symbolic; kernels replaced '
              'by memoised contract stubs' % (check, args))
-  chk = make_check(rsc, check, args)
-  if check == 'CheckROCA':
-    chk._fc = _Detector('ROCAKeyDetector')
-  if check == 'CheckROCAVariant':
-    chk._fcv = _Detector('ROCAKeyVariantDetector')
   cexs = []
   reach = 0
   att_holder = {}
 
+  class _Sev:
+    severity = None
+
+  chk = _Sev()
+
   def run(e):
+    # a fresh check object per path: state kept by the object is shared by
+    # the three batches of one path only
+    c_ = make_check(rsc, check, args)
+    if check == 'CheckROCA':
+      c_._fc = _Detector('ROCAKeyDetector')
+    if check == 'CheckROCAVariant':
+      c_._fcv = _Detector('ROCAKeyVariantDetector')
+    chk.severity = c_.severity
     att = Attach()
     att_holder['att'] = att
     with stubs.patched(util, AttachFactors=att):
-      rets = run_three(e, pb, rsc, chk, RANGES)
+      rets = run_three(e, pb, rsc, c_, RANGES)
     e.notes['att'] = att
     return rets
 
@@ -564,7 +646,7 @@ def relational_jobs(prop, aspects, tier):
            'CheckContinuedFractions', 'CheckBitPatterns',
            'CheckPermutedBitPatterns', 'CheckPollardpm1',
            'CheckLowHammingWeight', 'CheckUnseededRand',
-           'CheckSmallUpperDifferences']
+           'CheckSmallUpperDifferences', 'CheckKeypairDenylist']
   nvar = dict(CheckFermat=2, CheckContinuedFractions=2, CheckBitPatterns=3)
   for nm in names:
     for v in range(nvar.get(nm, 1)):
